@@ -58,7 +58,7 @@ def main():
         diff = open(os.path.join(VERIF, 'seeded', sid, 'patch.diff')).read()
         files = re.findall(r'(?m)^\+\+\+ b/src/(\S+)', diff)
         (ser if any(f in KANI_FILES for f in files) else par).append(sid)
-    with concurrent.futures.ThreadPoolExecutor(4) as ex:
+    with concurrent.futures.ThreadPoolExecutor(int(os.environ.get('EVAL_LANES', '4'))) as ex:
         futs = {ex.submit(eval_par, sid, sid[:3]): sid for sid in par}
         for f in concurrent.futures.as_completed(futs):
             sid = futs[f]
